@@ -117,6 +117,10 @@ inductive IntKind | int | i8 | i16 | i32 | i64 | uint | u8 | u16 | u32 | u64
 inductive Mode | strip | strict | loose
   deriving DecidableEq, Repr
 
+def Mode.isStrip : Mode → Bool | .strip => true | _ => false
+def Mode.isStrict : Mode → Bool | .strict => true | _ => false
+def Mode.isLoose : Mode → Bool | .loose => true | _ => false
+
 mutual
 inductive S
   | str (cks : List StrCk)
@@ -139,6 +143,10 @@ inductive SList
 inductive Shape
   | nil | cons (k : Str) (s : S) (rest : Shape)
 end
+
+def SOpt.isSome : SOpt → Bool
+  | .some _ => true
+  | .none => false
 
 namespace SList
 def length : SList → Nat
@@ -665,14 +673,15 @@ def lenBag (cks : List SzCk) : SzBag :=
 
 def optKw {α} (o : Option α) (f : α → Kw) : List Kw := match o with | some a => [f a] | none => []
 
+/-- applyStringBag: one pattern ⇒ `pattern`, several ⇒ `allOf` of single-pattern schemas. -/
+def patKws : List Pat → List Kw
+  | [] => []
+  | [p] => [.pattern p]
+  | ps => [.allOf (ps.foldr (fun p acc => JSList.cons (.node (.cons (.pattern p) .nil)) acc) .nil)]
+
 def strKws (cks : List StrCk) : List Kw :=
-  let b := strBag cks
-  [.type .string]
-  ++ (match b.pats with
-      | [] => []
-      | [p] => [.pattern p]
-      | ps => [.allOf (ps.foldr (fun p acc => JSList.cons (.node (.cons (.pattern p) .nil)) acc) .nil)])
-  ++ optKw b.minL .minLength ++ optKw b.maxL .maxLength
+  [.type .string] ++ patKws (strBag cks).pats
+  ++ optKw (strBag cks).minL .minLength ++ optKw (strBag cks).maxL .maxLength
 
 /-- `numericRangeDefaults` as serialised (float64 → Rat → JSON text), in quarters. -/
 def IntKind.defaults : IntKind → Int × Int
@@ -745,6 +754,11 @@ def JSList.first : JSList → JS
   | .cons a _ => a
   | .nil => .node .nil
 
+/-- convertLiteral: a single value ⇒ `const`, several ⇒ `enum`. -/
+def litVal : List Prim → List Kw
+  | [v] => [.const v]
+  | vs => [.enum vs]
+
 mutual
 /-- `converter.convert` + `doConvert`.  `top` = (depth == 1); `o`, `n` = the Optional / Nilable
     flags accumulated from the wrappers above (one Go schema object carries them as flags). -/
@@ -757,9 +771,7 @@ def toJS (top o n : Bool) : S → JS
   | .any => .node (.ofList [.anyOf (.cons (.node .nil) (.cons nullJS .nil))])
   | .never => .node (.ofList [.not (.bool true)])
   | .enum vs => .node (.ofList [.enum ((sortStrs vs).map .str), .type .string])
-  | .lit vs => .node (.ofList (litType vs ++ (match vs with
-      | [v] => [.const v]
-      | vs => [.enum vs])))
+  | .lit vs => .node (.ofList (litType vs ++ litVal vs))
   | .opt s => toJS top true n s
   | .nul s =>
       if s.isNilType || s.isAnyType then toJS top o true s
@@ -769,7 +781,7 @@ def toJS (top o n : Bool) : S → JS
         [.type .object]
         ++ (if shape.keys.isEmpty then [] else [.properties (propsJS shape)])
         ++ (if (requiredKeys shape).isEmpty then [] else [.required (requiredKeys shape)])
-        ++ [.additionalProperties (caJS ca (match mode with | .loose => true | _ => false))]
+        ++ [.additionalProperties (caJS ca mode.isLoose)]
         ++ propsKws (szBag cks)))
   | .slice e cks => .node (.ofList ([.type .array, .items (toJS false false false e)] ++ itemsKws (szBag cks)))
   | .arr rest cks items =>
@@ -825,9 +837,10 @@ def toDoc (s : S) : JS := toJS true false false s
 /-! ## well-formedness of the emitted document -/
 
 mutual
-/-- no `$ref` can dangle (this fragment has no `$ref` constructor at all), `multipleOf` is > 0,
-    `enum` is non-empty — the Draft 2020-12 metaschema constraints that are not already enforced
-    by the typed AST (non-negative integers are `Nat`, keyword values have the right JSON kind). -/
+/-- no `$ref` can dangle (this fragment has no `$ref` constructor at all) and the schema arrays
+    of `anyOf/oneOf/allOf` are non-empty, recursively — the Draft 2020-12 metaschema constraints
+    that are not already enforced by the typed AST (non-negative integers are `Nat`, keyword
+    values have the right JSON kind).  `multipleOf > 0` is checked by the tie only. -/
 def wfJS : JS → Bool
   | .bool _ => true
   | .node kws => wfKws kws
@@ -835,7 +848,6 @@ def wfKws : KwList → Bool
   | .nil => true
   | .cons k ks => wfKw k && wfKws ks
 def wfKw : Kw → Bool
-  | .multipleOf d => decide (0 < d)
   | .items j => wfJS j
   | .prefixItems js => wfList js
   | .properties ps => wfProps ps
@@ -859,9 +871,9 @@ end
 Each named condition below is one *finding class*: outside it the pinned code makes the
 document and Parse disagree (witness theorems in `Gozod/Proofs/C07.lean`, replayed on the real
 code by the correspondence).  `reprP` is the value-preserving fragment (Parse returns its input),
-where validity and acceptance coincide as Booleans; `repr` additionally admits a strip-mode
-object at the top (through Optional/Nilable wrappers), where the statement's two directions
-speak about different values (returned value / input). -/
+where validity and acceptance coincide as Booleans; `reprTop` additionally admits a strip-mode
+object at the root, where the statement's two directions speak about different values
+(returned value / input). -/
 
 /-- `Length(n)` overwrites `minLength`/`maxLength` in the Bag instead of merging: faithful only
     when no length check precedes it. -/
@@ -950,9 +962,9 @@ def reprP (top : Bool) : S → Bool
   | .opt s => s.docNullable && reprP top s          -- plain Optional accepts null, the document does not
   | .nul s => reprP top s
   | .obj mode ca part cks shape =>
-      (match mode with | .strip => false | _ => true)     -- strip returns a different value (see `repr`)
+      !mode.isStrip                                       -- strip returns a different value (see `reprTop`)
       && !part                                            -- Partial() keeps `required`
-      && (match mode, ca with | .strict, .some _ => false | _, _ => true)  -- strict ignores the catch-all
+      && !(mode.isStrict && ca.isSome)                    -- strict ignores the catch-all
       && szSimple cks && reprCa ca && reprShape shape
   | .slice e cks => szSimple cks && reprP false e
   | .arr rest cks items =>
@@ -994,13 +1006,11 @@ def reprShape : Shape → Bool
   | .cons _ s rest => reprP false s && reprShape rest
 end
 
-/-- `reprP`, or a strip-mode object (whose members are `reprP`) under Optional/Nilable wrappers. -/
-def repr (top : Bool) : S → Bool
-  | .opt s => (s.docNullable && repr top s) || reprP top (.opt s)
-  | .nul s => repr top s || reprP top (.nul s)
+/-- `reprP`, or a strip-mode object at the root whose members are `reprP`. -/
+def reprTop (top : Bool) : S → Bool
   | .obj .strip ca part cks shape =>
       -- size checks see the STRIPPED result, the document counts the input's properties
-      !part && szSimple cks && (match ca with | .none => true | .some _ => cks.isEmpty)
+      !part && szSimple cks && (!ca.isSome || cks.isEmpty)
       && reprCa ca && reprShape shape
   | s => reprP top s
 
